@@ -15,10 +15,11 @@ for f in sorted(glob.glob(os.path.join(V, "obligations.d", "*.json"))):
                 d[kk] = vv
 props = [json.loads(l) for l in open(os.path.join(V, "properties.jsonl"))]
 na_reasons = json.load(open(os.path.join(V, "tools", "not_applicable.json"))) if os.path.exists(os.path.join(V, "tools", "not_applicable.json")) else {}
+claimed = json.load(open(os.path.join(V, 'tools', 'claimed.json')))
 checks, na = [], []
 for p in props:
     pid = p["id"]
-    if pid in ob and ob[pid].get("claimed", True):
+    if pid in ob and pid in claimed:
         o = ob[pid]
         checks.append({
             "property_id": pid,
